@@ -379,12 +379,63 @@ func (w *world) freshIDs(c int) []int {
 	return fresh
 }
 
+// hasExpiredLock: some accepted LOCK for k has expired at the metabase epoch
+// (it may still be stored until GC collects it).
+func (w *world) hasExpiredLock(k key) bool {
+	for lk, m := range w.objs {
+		if m.hasSpec && m.spec.Kind == uni.Lock && lk.c == k.c && m.spec.Target == k.i && m.putOK && expired(m.spec.Exp, w.metaEpoch) {
+			return true
+		}
+	}
+	return false
+}
+
+// actLockTombed sends a NEW LOCK for an object that certainly is tombstoned,
+// preferring objects that still have an expired (possibly uncollected) lock:
+// invariant (3) must reject it whatever old locks are around.
+func (w *world) actLockTombed() {
+	t := w.t
+	var tgts []int
+	for i := 0; i < nObj; i++ {
+		k := keyOf(i)
+		if !w.tombstonedCertain(k) {
+			continue
+		}
+		if m := w.objs[k]; m != nil && m.hasSpec && m.spec.Kind != uni.Regular {
+			continue
+		}
+		tgts = append(tgts, i)
+		if w.hasExpiredLock(k) {
+			tgts = append(tgts, i, i, i)
+		}
+	}
+	if len(tgts) == 0 {
+		t.Skip("nothing is certainly tombstoned")
+	}
+	tg := keyOf(rapid.SampledFrom(tgts).Draw(t, "tombstoned-target"))
+	fresh := w.freshIDs(tg.c)
+	if len(fresh) == 0 {
+		t.Skip("no fresh id")
+	}
+	k := key{tg.c, rapid.SampledFrom(fresh).Draw(t, "lock-id")}
+	m := w.get(k)
+	m.spec = uni.Spec{Kind: uni.Lock, Cnr: k.c, ID: k.i, Exp: int(w.metaEpoch) + rapid.IntRange(0, 4).Draw(t, "exp"), Target: tg.i, Parent: -1, ParentExp: -1, First: -1}
+	m.hasSpec = true
+	if w.hasExpiredLock(tg) {
+		w.labels["new-lock-for-tombstoned-with-expired-lock"] = true
+	}
+	w.putKnown(k)
+}
+
 // actTombLocked aims a new TOMBSTONE at an object that currently has a lock.
 func (w *world) actTombLocked() {
 	t := w.t
 	var tgts []int
 	for i := 0; i < nObj; i++ {
 		if live, maybe := w.locks(keyOf(i)); live || maybe {
+			tgts = append(tgts, i)
+		} else if w.hasExpiredLock(keyOf(i)) {
+			// the lock has expired (and may still be stored): the tombstone is admissible now
 			tgts = append(tgts, i)
 		}
 	}
@@ -950,6 +1001,7 @@ func TestC07LockProtects(t *testing.T) {
 			"put2":   func(*rapid.T) { w.actPut() },
 			"put3":   func(*rapid.T) { w.actPut() },
 			"tomb-l": func(*rapid.T) { w.actTombLocked() },
+			"lock-t": func(*rapid.T) { w.actLockTombed() },
 			"mark":   func(*rapid.T) { w.actMark() },
 			"mark-l": func(*rapid.T) { w.actMarkLock() },
 			"epoch":  func(*rapid.T) { w.actEpoch() },
